@@ -431,9 +431,10 @@ def error_class(e: BaseException) -> str:
     }.get(n, "other:" + n)
 
 
-def _audit_prop(prop: str):
+def _audit_prop(prop: str, extra=()):
     WORK.mkdir(exist_ok=True)
-    src = (LEAN / "Audit.lean").read_text().replace("import FeemsProofs\n", f"import FeemsProofs.{prop}\n")
+    imports = "".join(f"import {m}\n" for m in (f"FeemsProofs.{prop}",) + tuple(extra))
+    src = (LEAN / "Audit.lean").read_text().replace("import FeemsProofs\n", imports)
     path = WORK / f"Audit_{prop}.lean"
     path.write_text(src)
     with Lock("build"):
@@ -450,13 +451,13 @@ def _audit_prop(prop: str):
 _audit_all = audit
 
 
-def audit(prop=None):  # noqa: F811
-    return _audit_all() if prop is None else _audit_prop(prop)
+def audit(prop=None, extra=()):  # noqa: F811
+    return _audit_all() if prop is None else _audit_prop(prop, extra)
 
 
-def leanchecker(prop: str):
+def leanchecker(prop: str, extra=()):
     with Lock("build"):
-        return _run(["lake", "env", "leanchecker", f"FeemsProofs.{prop}"], cwd=LEAN, timeout=3000)
+        return _run(["lake", "env", "leanchecker", f"FeemsProofs.{prop}", *extra], cwd=LEAN, timeout=3000)
 
 
 def _is_known(self, f) -> bool:
